@@ -78,9 +78,17 @@ namespace Cur
 
 def start (code : Bytes) : Cur := ⟨0, code, code.length⟩
 
+/-- the first `k` bytes and the rest; `none` when fewer than `k` are left -/
+def splitExact : Nat → Bytes → Option (Bytes × Bytes)
+  | 0, s => some ([], s)
+  | _ + 1, [] => none
+  | k + 1, a :: s => (splitExact k s).map fun (x, r) => (a :: x, r)
+
 /-- `read_exact` of `k` bytes -/
 def take (k : Nat) (c : Cur) : TM (Bytes × Cur) :=
-  if k ≤ c.rest.length then pure (c.rest.take k, { c with pos := c.pos + k, rest := c.rest.drop k }) else fail
+  match splitExact k c.rest with
+  | some (x, r) => pure (x, { c with pos := c.pos + k, rest := r })
+  | none => fail
 
 def u8 (c : Cur) : TM (Nat × Cur) := do
   let (b, c) ← c.take 1
@@ -537,7 +545,7 @@ def readCodeAttr (st : AttrState) (s : Bytes) : TM (AttrState × Bytes) := do
     let (l, s) ← loopL readTypeAnno n st.labels s
     pure ({ st with labels := l }, s)
   else do
-    let (_, s) ← takeVec length s                   -- site 6: `read_u8_vec(length as usize)`, length is a u32
+    let (_, s) ← takeVecBig length s                -- site 6: `read_u8_vec(length as usize)`, length is a u32
     pure (st, s)
 
 def readCodeAttrs : Nat → AttrState → Bytes → TM (AttrState × Bytes)
